@@ -1,6 +1,10 @@
 import MirProofs.Lemmas.Segment
+import MirProofs.Lemmas.SegmentRel
 import MirProofs.Props.C16
-/-! C06 — exchanging reference and estimate: pairwise P <-> R (F kept at beta = 1), Rand / ARI / MI symmetric. -/
+/-! C06 — exchanging reference and estimate: pairwise P <-> R (F kept at beta = 1), Rand / ARI / MI symmetric;
+    over the real-number reading of the entropy-based scores: NMI and AMI symmetric (the expected-MI triple loop is
+    symmetric under exchanging the margin vectors), NCE over <-> under and V precision <-> V recall, their
+    F-measures unchanged at beta = 1.  All for label-index sequences of any (equal) length. -/
 namespace Mir.C06.Segment
 open Mir
 
@@ -19,5 +23,50 @@ theorem ari_symm {yr ye : List Nat} (hl : yr.length = ye.length) :
 /-- mutual information (over the reals) is symmetric -/
 theorem mi_symm (yr ye : List Nat) (hl : yr.length = ye.length) :
     Segment.mutualInfoIdx (α := ℝ) ye yr = Segment.mutualInfoIdx (α := ℝ) yr ye := Mir.C16.mi_symm yr ye hl
+
+/-! ### entropy-based scores (model at the real-number instance) -/
+
+/-- NMI — value, numerator and denominator — is symmetric -/
+theorem nmi_symm {yr ye : List Nat} (hl : yr.length = ye.length) :
+    Segment.nmiIdx (α := ℝ) ye yr = Segment.nmiIdx (α := ℝ) yr ye := Segment.nmiIdx_real_symm hl
+
+/-- the expected-MI triple loop of `_adjusted_mutual_info_score` is symmetric under exchanging the two margin
+    vectors — ANY margin vectors and total, not only those of a contingency table -/
+theorem emi_symm (a b : List Nat) (n : Nat) :
+    Segment.expectedMI (α := ℝ) b a n = Segment.expectedMI (α := ℝ) a b n := Segment.expectedMI_real_symm a b n
+
+/-- AMI — value, numerator and denominator — is symmetric -/
+theorem ami_symm {yr ye : List Nat} (hl : yr.length = ye.length) :
+    Segment.amiIdx (α := ℝ) ye yr = Segment.amiIdx (α := ℝ) yr ye := Segment.amiIdx_real_symm hl
+
+/-- NCE: exchanging the roles exchanges the over- and the under-segmentation score (`marginal` = False or True),
+    for every beta -/
+theorem nce_swap {yr ye : List Nat} (hl : yr.length = ye.length) (beta : ℝ) (marginal : Bool) :
+    (Segment.nceIdx (α := ℝ) ye yr beta marginal).1 = (Segment.nceIdx (α := ℝ) yr ye beta marginal).2.1 ∧
+    (Segment.nceIdx (α := ℝ) ye yr beta marginal).2.1 = (Segment.nceIdx (α := ℝ) yr ye beta marginal).1 := by
+  rw [Segment.nceIdx_real_swap hl]
+  exact ⟨rfl, rfl⟩
+
+/-- … and the NCE F-measure is unchanged at `beta = 1` -/
+theorem nce_F_swap {yr ye : List Nat} (hl : yr.length = ye.length) (marginal : Bool) :
+    (Segment.nceIdx (α := ℝ) ye yr 1 marginal).2.2 = (Segment.nceIdx (α := ℝ) yr ye 1 marginal).2.2 :=
+  Segment.nceIdx_real_swap_F hl marginal
+
+/-- V-measure: V precision <-> V recall, V-measure unchanged at `beta = 1` -/
+theorem v_swap {yr ye : List Nat} (hl : yr.length = ye.length) :
+    (Segment.vmeasureIdx (α := ℝ) ye yr 1).1 = (Segment.vmeasureIdx (α := ℝ) yr ye 1).2.1 ∧
+    (Segment.vmeasureIdx (α := ℝ) ye yr 1).2.1 = (Segment.vmeasureIdx (α := ℝ) yr ye 1).1 ∧
+    (Segment.vmeasureIdx (α := ℝ) ye yr 1).2.2 = (Segment.vmeasureIdx (α := ℝ) yr ye 1).2.2 := by
+  unfold Segment.vmeasureIdx
+  exact ⟨(nce_swap hl 1 true).1, (nce_swap hl 1 true).2, nce_F_swap hl true⟩
+
+-- non-vacuity: two sequences of equal length that are not one-cluster, with an asymmetric table
+example : [0, 0, 1, 1].length = [0, 1, 1, 1].length ∧ ¬ Segment.miSpecial [0, 0, 1, 1] [0, 1, 1, 1] ∧
+    Segment.rowSums (Segment.contingency [0, 0, 1, 1] [0, 1, 1, 1]) = [2, 2] ∧
+    Segment.rowSums (Segment.contingency [0, 1, 1, 1] [0, 0, 1, 1]) = [1, 3] := by decide +kernel
+
+example : Segment.nmiIdx (α := ℝ) [0, 1, 1, 1] [0, 0, 1, 1] = Segment.nmiIdx (α := ℝ) [0, 0, 1, 1] [0, 1, 1, 1] ∧
+    Segment.amiIdx (α := ℝ) [0, 1, 1, 1] [0, 0, 1, 1] = Segment.amiIdx (α := ℝ) [0, 0, 1, 1] [0, 1, 1, 1] :=
+  ⟨nmi_symm rfl, ami_symm rfl⟩
 
 end Mir.C06.Segment
